@@ -80,8 +80,8 @@ func parseTok(s string) token.Token {
 	}
 	return token.Token{
 		Type: token.Type(atoi(f[0])), Literal: unhex(f[1]),
-		Start: token.Position{Line: atoi(f[2]), Column: atoi(f[3])},
-		End:   token.Position{Line: atoi(f[4]), Column: atoi(f[5])},
+		Start:        token.Position{Line: atoi(f[2]), Column: atoi(f[3])},
+		End:          token.Position{Line: atoi(f[4]), Column: atoi(f[5])},
 		AfterNewline: f[6] == "1", LeadingComments: parseComments(f[7]),
 	}
 }
